@@ -876,6 +876,83 @@ func c14Gen(c *Ctx) {
 		in = c14FixCaps(in)
 		c14Try(t, "flex", in)
 	})
+	c14FlexLarge(c)
+}
+
+// c14FlexLarge: slices of a thousand and more elements, bursts proportional to the capacity (growth policies that
+// change with the size: "double below 1024, then 1.25x", thresholds that are fractions of cap).
+func c14FlexLarge(c *Ctx) {
+	caps := []int{1023, 1024, 1025, 1280, 1792, 2048, 3000, 4096, 5000}
+	c.Each(c.N(160, 3000), func(i int, t *T) {
+		r := t.R
+		cp := caps[i%len(caps)]
+		if i >= 4*len(caps) && r.Intn(3) == 0 {
+			cp = 600 + r.Intn(6000)
+		}
+		n := cp
+		switch r.Intn(5) {
+		case 0:
+			n = cp - 1 - r.Intn(8)
+		case 1:
+			n = cp/4 + r.Intn(3)
+		case 2:
+			n = cp / 2
+		}
+		salt := r.Intn(1000)
+		buf := make([]int64, cp)
+		for j := range buf {
+			buf[j] = int64((j*7 + salt) % 1000)
+		}
+		in := append([]int64{fFlex}, PutList(buf)...)
+		nops := 2 + r.Intn(5)
+		in = append(in, int64(n), int64(nops))
+		cur := n // approximate length, only steers the burst sizes
+		for j := 0; j < nops; j++ {
+			var op []int64
+			burst := func() []int64 {
+				base := cur
+				if base < 8 {
+					base = cp
+				}
+				k := []int{1, base / 8, base/4 + 1, base / 3, base/4 + base/50 + 1, base / 2, base - 1, base, base + base/3, 2*base + 1}[r.Intn(10)]
+				if k > 12000 {
+					k = 12000
+				}
+				v := make([]int64, k)
+				s2 := r.Intn(1000)
+				for q := range v {
+					v[q] = int64(1000 + (q*3+s2)%1000)
+				}
+				cur += k
+				return v
+			}
+			switch x := r.Intn(10); {
+			case x < 3:
+				op = append([]int64{0, 0}, burst()...)
+			case x < 7:
+				op = append([]int64{1}, burst()...)
+			case x == 7:
+				op = []int64{3, int64(r.Intn(cur + 1))}
+				if cur > 0 {
+					cur--
+				}
+			case x == 8:
+				a := r.Intn(cur/2 + 1)
+				e := a + r.Intn(cur-a+1)
+				op = []int64{4, int64(a), int64(e)}
+				cur = e - a
+			default:
+				op = []int64{6}
+				if cur > 0 {
+					cur--
+				}
+			}
+			in = append(in, PutList(op)...)
+			t.C.Count("flex-op", []string{"Append", "Prepend", "Get", "Remove", "SubSlice", "Pop", "Shift", "Len"}[op[0]])
+		}
+		in = c14FixCaps(in)
+		c14Try(t, "flex-large", in)
+	})
 }
 
 func c14FlexLen(i int) int {
